@@ -904,6 +904,19 @@ class Interp:
             if m == "rev":
                 return ("list", list(reversed(recv_list)))
             if m in ("collect", "to_vec", "to_owned"):
+                tf = (e.get("tf") or "").replace(" ", "")
+                if m == "collect" and ("Result<" in tf or "Option<" in tf) and not tf.startswith("::<Vec<"):
+                    # collecting into Result<_, E> / Option<_>: the first failure wins, otherwise the payloads are collected
+                    out = []
+                    for x in recv_list:
+                        if isinstance(x, tuple) and x[0] in ("Err", "None"):
+                            return x
+                        if not (isinstance(x, tuple) and x[0] in ("Ok", "Some") and len(x) == 2):
+                            raise Unknown("collect%s of %r" % (tf, x))
+                        out.append(x[1])
+                    return ("Ok" if "Result<" in tf else "Some", MutList(out))
+                if m == "collect" and not tf and recv_list and all(isinstance(x, tuple) and x and x[0] in ("Ok", "Err") for x in recv_list):
+                    raise Unknown("collect of Results whose target type is not visible at the call")
                 ml = MutList(recv_list)
                 return ml
             if m == "len" or m == "count":
@@ -1257,7 +1270,11 @@ class Interp:
                 if m:
                     for n, x in m.items():
                         self.bind(n, x)
-            return self.eval(c["body"])
+            try:
+                return self.eval(c["body"])
+            except Return as r:
+                # `return` and `?` inside a closure leave the closure, not the enclosing function
+                return r.v
         finally:
             self.scopes.pop()
 
